@@ -642,3 +642,43 @@ HEAP_HEADERS["C08E"] = ("From Coq Require Import String.\nFrom CppUVerif Require
                         "Section Expectation.\nVariable param_name : hptr -> Z.\nVariable param_equals : hptr -> hptr -> Z.\n"
                         "Variable param_compatible : hptr -> hptr -> Z.\n")
 HEAP_FOOTERS["C08E"] = "\nEnd Expectation.\n"
+
+# ------------------------------------------------------------------ the runner's frame: initializeTestRun, runAllTestsMain, the static RunAllTests (C02 / C12 / C17)
+_G12R = [["evs", "list rnev"]] + [[g, "Z"] for g in ["gfilters", "nfilters", "verbose", "veryVerbose", "color", "separate", "runIgnored",
+                                                      "crashOnFail", "rethrow"]] + [["parses", "list Z"], ["runs", "list Z"], ["mains", "list Z"]]
+_C12R = {"getGroupFilters": "gfilters", "getNameFilters": "nfilters", "isVerbose": "verbose", "isVeryVerbose": "veryVerbose", "isColor": "color",
+         "runTestsInSeperateProcess": "separate", "isRunIgnored": "runIgnored", "isCrashingOnFail": "crashOnFail",
+         "isRethrowingExceptions": "rethrow",
+         "setGroupFilters": {"event": "RSetGroupFilters {0}", "args": [0]}, "setNameFilters": {"event": "RSetNameFilters {0}", "args": [0]},
+         "verbose": {"event": "RVerbose {0}", "args": [0]}, "color": {"event": "RColor"},
+         "setRunTestsInSeperateProcess": {"event": "RSetSeparate"}, "setRunIgnored": {"event": "RSetRunIgnored"},
+         "setCrashOnFail": {"event": "RSetCrashOnFail"}, "setRethrowExceptions": {"event": "RSetRethrow {0}", "args": [0]},
+         "SetPointerPlugin": {"ctor_event": 'RCtor "SetPointerPlugin"', "eval_args": []},
+         "MemoryLeakWarningPlugin": {"ctor_event": 'RCtor "MemoryLeakWarningPlugin"', "eval_args": []},
+         "ConsoleTestOutput": {"ctor_event": 'RCtor "ConsoleTestOutput"', "eval_args": []},
+         "CommandLineTestRunner": {"ctor_event": 'RCtor "CommandLineTestRunner"', "eval_args": []},
+         "installPlugin": {"event": "RInstall"}, "removePluginByName": {"event": "RRemove {0}", "args": [0]},
+         "getCurrentRegistry": "0", "getFirstPlugin": "0",
+         "parseArguments": {"event": "RParse {v}", "oracle": "parses"}, "runAllTests": {"event": "RRunAll {v}", "oracle": "runs"},
+         "runAllTestsMain": {"event": "RMain {v}", "oracle": "mains"},
+         "destroyGlobalDetectorAndTurnOffMemoryLeakDetectionInDestructor": {"event": "RDestroyDetectorInDtor {0}", "args": [0]},
+         "FinalReport": {"event": "RFinalReport {0}", "args": [0]}, "operator<<": {"event": "RPrint", "args": [1]}}
+HEAP_RECORDS["C12R"] = []
+_P12R = dict(calls=_C12R, ghosts=_G12R, opaque_classes=["SimpleString"], string_literals={'"MemoryLeakPlugin"': "1", '"SetPointerPlugin"': "2"},
+             enum_values={"level_quiet": 0, "level_verbose": 1, "level_veryVerbose": 2})
+HEAP_GROUPS["C12R"] = [
+    dict(file=CLR, name="CommandLineTestRunner::initializeTestRun", coq="src_runner_initializeTestRun", **_P12R),
+    dict(file=CLR, name="CommandLineTestRunner::runAllTestsMain", coq="src_runner_runAllTestsMain", **_P12R),
+    dict(file=CLR, name="CommandLineTestRunner::RunAllTests", coq="src_runner_RunAllTests", signature="const char *const *", **_P12R)]
+HEAP_HEADERS["C12R"] = ("From Coq Require Import String.\nFrom CppUVerif Require Import lib.CSem lib.CMem lib.CHeap.\nLocal Open Scope Z_scope.\n"
+                        "(* translated by tools/cxx2heap.py: the frame the command-line runner puts around a run -- initializeTestRun (what a parsed "
+                        "command line does to the registry, the output and the process-wide switches), runAllTestsMain (pointer plugin installed, "
+                        "arguments parsed, run, plugin removed by name) and the static RunAllTests(ac, av) (leak plugin installed, a runner made and "
+                        "run, final report iff the result is 0, plugin removed by name). The getters of the parsed arguments are ghost constants; "
+                        "every call on the registry / output / UtestShell statics / a plugin is a ghost event carrying the argument values; "
+                        "constructing a local object of an unmodelled class is RCtor <class> (destructors are not represented); parseArguments, "
+                        "runAllTests and runAllTestsMain answer through oracle streams recorded in RParse / RRunAll / RMain; the plugin names are the "
+                        "integers 1 (\\\"MemoryLeakPlugin\\\") and 2 (\\\"SetPointerPlugin\\\"); the verbosity levels are 1 and 2 *)\n"
+                        "Inductive rnev := RSetGroupFilters (f : Z) | RSetNameFilters (f : Z) | RVerbose (level : Z) | RColor | RSetSeparate | RSetRunIgnored | "
+                        "RSetCrashOnFail | RSetRethrow (b : Z) | RCtor (cls : string) | RInstall | RRemove (name : Z) | RParse (ok : Z) | RRunAll (res : Z) | "
+                        "RMain (res : Z) | RDestroyDetectorInDtor (b : Z) | RFinalReport (expected : Z) | RPrint.\n")
